@@ -622,6 +622,9 @@ def _thread_start(self):
     if s.in_sim():
         s.point("thread.start", _thread_name(self))
     s.spawn(self.run, _thread_name(self), obj=self)
+    if s.in_sim() and getattr(s, "point_after_spawn", False):
+        # opt-in: the freshly started thread may run before its starter executes its next statement
+        s.point("thread.started", _thread_name(self))
 
 
 def _thread_is_alive(self):
